@@ -245,6 +245,21 @@ func (e *Env) eval(x Expr) tv {
 		case "&":
 			// address of a field: &x.f
 			if sel, ok := n.X.(ESel); ok {
+				// &local.f where local is an addressable struct variable of the frame
+				if id, ok := sel.X.(EIdent); ok && e.frame != nil && e.frame.localIsAddr[id.Name] {
+					if _, shadow := e.vars[id.Name]; !shadow {
+						if lt := c.eng.localType(e.frame.fn, id.Name); lt != nil {
+							if st, ok := isStructType(lt); ok {
+								addr := e.frame.locals[id.Name].(Sc).T
+								for i := 0; i < st.NumFields(); i++ {
+									if st.Field(i).Name() == sel.Name {
+										return tv{Sc{T: c.subRef(s, addr, lt, i)}, types.NewPointer(st.Field(i).Type())}
+									}
+								}
+							}
+						}
+					}
+				}
 				base := e.eval(sel.X)
 				st, ref, ok := e.structOf(base)
 				if ok {
@@ -254,6 +269,12 @@ func (e *Env) eval(x Expr) tv {
 							return tv{Sc{T: c.subRef(s, ref, owner, i)}, types.NewPointer(st.Field(i).Type())}
 						}
 					}
+				}
+			}
+			// &local : the address of an addressable variable of the frame
+			if id, ok := n.X.(EIdent); ok && e.frame != nil && e.frame.localIsAddr[id.Name] {
+				if lt := c.eng.localType(e.frame.fn, id.Name); lt != nil {
+					return tv{e.frame.locals[id.Name], types.NewPointer(lt)}
 				}
 			}
 			return e.fail("unsupported address-of %s", n.X.exprString())
